@@ -532,3 +532,63 @@ Proof. exists c_ex. vm_compute. repeat split; congruence. Qed.
 Example ex_same_tag_passes :
   outs c_ex [(5%N, [], 0); (7%N, tA, 1); (9%N, [], 2); (7%N, tA, 3); (7%N, tB, 3)] = [false; false; false; false; true].
 Proof. vm_compute. reflexivity. Qed.
+
+(* ------------------------------------------------------------------ management reloads *)
+
+Lemma set_users_spec (s : server) (g : N) : s_rc (set_users s g) = s_rc s /\ s_users (set_users s g) = g.
+Proof. split; reflexivity. Qed.
+
+Lemma presents_app (h1 h2 : list sop) : presents (h1 ++ h2) = presents h1 ++ presents h2.
+Proof.
+  induction h1 as [|[o|g] h1 IH]; cbn [presents app]; [reflexivity| |assumption].
+  rewrite IH. reflexivity.
+Qed.
+
+(* the cache after a history with reloads is the cache after its traffic alone *)
+Lemma sfinal_cache (h : list sop) : forall s, s_rc (sfinal s h) = final (s_rc s) (presents h).
+Proof.
+  induction h as [|[o|g] h IH]; intros s; cbn [sfinal presents final]; [reflexivity| |].
+  - rewrite IH. unfold sstep. destruct (step (s_rc s) o) as [b c]. reflexivity.
+  - rewrite IH. reflexivity.
+Qed.
+
+(* the users generation after a history is that of its last reload *)
+Fixpoint last_reload (g0 : N) (h : list sop) : N :=
+  match h with
+  | [] => g0
+  | Present _ :: h' => last_reload g0 h'
+  | Reload g :: h' => last_reload g h'
+  end.
+
+Lemma sfinal_users (h : list sop) : forall s, s_users (sfinal s h) = last_reload (s_users s) h.
+Proof.
+  induction h as [|[o|g] h IH]; intros s; cbn [sfinal last_reload]; [reflexivity| |].
+  - rewrite IH. unfold sstep. destruct (step (s_rc s) o). reflexivity.
+  - rewrite IH. reflexivity.
+Qed.
+
+(* no-miss over histories interleaved with reloads *)
+Lemma replay_no_miss_across_reload (capv iv T0 : Z) (c0 : cache) (g0 : N) (hs1 : list sop)
+      (x : N) (ta : tag) (t0 : Z) (hs2 : list sop) (tq : tag) (t1 : Z) :
+  new_cache capv iv T0 = Some c0 -> capv <> 0 ->
+  fst (sstep (sfinal (mkServer g0 c0) hs1) (Present (x, ta, t0))) = Some false ->
+  mono_from t0 (presents hs2 ++ [(x, tq, t1)]) ->
+  t1 < t0 + iv ->
+  cnt x (sigs (presents hs2)) < capv ->
+  fst (sstep (sfinal (mkServer g0 c0) (hs1 ++ Present (x, ta, t0) :: hs2)) (Present (x, tq, t1))) = Some (tag_rule ta tq).
+Proof.
+  intros E N Acc M Hi Hc.
+  assert (Q : forall s o, fst (sstep s (Present o)) = Some (fst (step (s_rc s) o))).
+  { intros s o. unfold sstep. destruct (step (s_rc s) o). reflexivity. }
+  rewrite Q in Acc. rewrite Q. rewrite sfinal_cache in *. cbn [s_rc] in *.
+  rewrite presents_app. cbn [presents]. f_equal.
+  apply (replay_no_miss capv iv T0 c0 (presents hs1) x ta t0 (presents hs2) tq t1 E N); try assumption.
+  inversion Acc. reflexivity.
+Qed.
+
+Example ex_reload_between :
+  let s0 := mkServer 0 c_ex in
+  let h := [Present (5%N, [], 0); Present (7%N, tA, 1); Reload 1; Present (9%N, [], 2); Reload 2; Reload 3] in
+  fst (sstep (sfinal s0 h) (Present (7%N, tB, 3))) = Some true /\ s_users (sfinal s0 h) = 3%N /\
+  presents h = [(5%N, [], 0); (7%N, tA, 1); (9%N, [], 2)].
+Proof. vm_compute. repeat split; reflexivity. Qed.
